@@ -3,18 +3,22 @@ The definitions REGENERATED from the Rust source by /verif/extract/extract_arith
 (`PP/Gen/Arith.lean`, namespace `PP.Gen.A`, one `let` per Rust statement) are equal to the
 hand-written model (`PP/Model/Tower.lean`, `Curve.lean`, `Map.lean`, `Pairing.lean`).
 
-Proof method.  The hand model was written statement by statement, so almost everything is `rfl`
-(unfolding of definitions, `let`, structure projections).  Where a generated function calls
-generated functions of a lower layer whose unfolding is expensive (`Fq12.inverse`,
-`final_exponentiation`: the `match` on an inverse would make `whnf` unfold the whole tower), the
-lower layer is first rewritten with the equalities already proved and then GENERALISED to a
-variable, so that the remaining `rfl` is purely structural.  The two `negate`s are written with the
-branches the other way round in the model (`if is_zero then p else ..` for the Rust
-`if !is_zero { .. }`): case split.
+Proof method.  The hand model was written statement by statement, so every equality is `rfl` up to
+unfolding of the definition, `let`, and structure projections.  To keep each theorem LOCAL (an edit
+of Rust `Fq2::mul_assign` must break `Fq2_mul_eq` and nothing else) and cheap, a proof first
+rewrites the calls of generated lower-layer functions into the model's with the equalities already
+proved (`lower2`, `lower6`, `lower12`, `lowerEC`: `simp -zeta only` with closed equations between
+constants, nothing else), and only then compares by `rfl`.  Where the `match` on an inverse would
+make `whnf` unfold the whole tower (`Fq12.inverse`, `final_exponentiation`) the lower-layer
+functions are moreover GENERALISED to variables, so that the `rfl` is purely structural.  The two
+`negate`s have their branches the other way round in the model (`if is_zero then p else ..` for the
+Rust `if !is_zero { .. }`): case split.
 
-Core Lean only; no axioms beyond `propext` (from `rw`).
+Core Lean only; axioms: `propext`, `Quot.sound` (via `simp`/`rw`/`funext`) at most.
 -/
 import PP.Gen.Arith
+
+set_option linter.unusedSimpArgs false
 
 namespace PP.GenArithLemmas
 open PP PP.Gen
@@ -35,59 +39,71 @@ theorem Fq2_mul_eq : A.Fq2.mul = PP.Fq2.mul := rfl
 theorem Fq2_inverse_eq : A.Fq2.inverse = PP.Fq2.inverse := rfl
 theorem Fq2_frobeniusMap_eq : A.Fq2.frobeniusMap = PP.Fq2.frobeniusMap := rfl
 
+/-- rewrite generated `Fq2` operations into the model's -/
+local macro "lower2" : tactic => `(tactic| try simp -zeta only [Fq2_mulByNonresidue_eq, Fq2_norm_eq, Fq2_zero_eq, Fq2_one_eq, Fq2_isZero_eq, Fq2_square_eq, Fq2_double_eq, Fq2_neg_eq, Fq2_add_eq, Fq2_sub_eq, Fq2_mul_eq, Fq2_inverse_eq, Fq2_frobeniusMap_eq])
+
 /-! ## Fq6 (src/bls12_381/fq6.rs) -/
 
-theorem Fq6_mulByNonresidue_eq : A.Fq6.mulByNonresidue = PP.Fq6.mulByNonresidue := rfl
-theorem Fq6_mulBy1_eq : A.Fq6.mulBy1 = PP.Fq6.mulBy1 := rfl
-theorem Fq6_mulBy01_eq : A.Fq6.mulBy01 = PP.Fq6.mulBy01 := rfl
-theorem Fq6_zero_eq : A.Fq6.zero = (0 : Fq6) := rfl
-theorem Fq6_one_eq : A.Fq6.one = (1 : Fq6) := rfl
-theorem Fq6_isZero_eq : A.Fq6.isZero = PP.Fq6.isZero := rfl
-theorem Fq6_double_eq : A.Fq6.double = PP.Fq6.double := rfl
-theorem Fq6_neg_eq : A.Fq6.neg = PP.Fq6.neg := rfl
-theorem Fq6_add_eq : A.Fq6.add = PP.Fq6.add := rfl
-theorem Fq6_sub_eq : A.Fq6.sub = PP.Fq6.sub := rfl
-theorem Fq6_frobeniusMap_eq : A.Fq6.frobeniusMap = PP.Fq6.frobeniusMap := rfl
-theorem Fq6_square_eq : A.Fq6.square = PP.Fq6.square := rfl
-theorem Fq6_mul_eq : A.Fq6.mul = PP.Fq6.mul := rfl
-theorem Fq6_inverse_eq : A.Fq6.inverse = PP.Fq6.inverse := rfl
+theorem Fq6_mulByNonresidue_eq : A.Fq6.mulByNonresidue = PP.Fq6.mulByNonresidue := by unfold A.Fq6.mulByNonresidue; lower2; all_goals rfl
+theorem Fq6_mulBy1_eq : A.Fq6.mulBy1 = PP.Fq6.mulBy1 := by unfold A.Fq6.mulBy1; lower2; all_goals rfl
+theorem Fq6_mulBy01_eq : A.Fq6.mulBy01 = PP.Fq6.mulBy01 := by unfold A.Fq6.mulBy01; lower2; all_goals rfl
+theorem Fq6_zero_eq : A.Fq6.zero = (0 : Fq6) := by unfold A.Fq6.zero; lower2; all_goals rfl
+theorem Fq6_one_eq : A.Fq6.one = (1 : Fq6) := by unfold A.Fq6.one; lower2; all_goals rfl
+theorem Fq6_isZero_eq : A.Fq6.isZero = PP.Fq6.isZero := by unfold A.Fq6.isZero; lower2; all_goals rfl
+theorem Fq6_double_eq : A.Fq6.double = PP.Fq6.double := by unfold A.Fq6.double; lower2; all_goals rfl
+theorem Fq6_neg_eq : A.Fq6.neg = PP.Fq6.neg := by unfold A.Fq6.neg; lower2; all_goals rfl
+theorem Fq6_add_eq : A.Fq6.add = PP.Fq6.add := by unfold A.Fq6.add; lower2; all_goals rfl
+theorem Fq6_sub_eq : A.Fq6.sub = PP.Fq6.sub := by unfold A.Fq6.sub; lower2; all_goals rfl
+theorem Fq6_frobeniusMap_eq : A.Fq6.frobeniusMap = PP.Fq6.frobeniusMap := by unfold A.Fq6.frobeniusMap; lower2; all_goals rfl
+theorem Fq6_square_eq : A.Fq6.square = PP.Fq6.square := by unfold A.Fq6.square; lower2; all_goals rfl
+theorem Fq6_mul_eq : A.Fq6.mul = PP.Fq6.mul := by unfold A.Fq6.mul; lower2; all_goals rfl
+theorem Fq6_inverse_eq : A.Fq6.inverse = PP.Fq6.inverse := by unfold A.Fq6.inverse; lower2; all_goals rfl
+
+/-- rewrite generated `Fq6` and `Fq2` operations into the model's -/
+local macro "lower6" : tactic => `(tactic| try simp -zeta only [Fq6_mulByNonresidue_eq, Fq6_mulBy1_eq, Fq6_mulBy01_eq, Fq6_zero_eq, Fq6_one_eq, Fq6_isZero_eq, Fq6_double_eq, Fq6_neg_eq, Fq6_add_eq, Fq6_sub_eq, Fq6_frobeniusMap_eq, Fq6_square_eq, Fq6_mul_eq, Fq6_inverse_eq,
+  Fq2_mulByNonresidue_eq, Fq2_norm_eq, Fq2_zero_eq, Fq2_one_eq, Fq2_isZero_eq, Fq2_square_eq, Fq2_double_eq, Fq2_neg_eq, Fq2_add_eq, Fq2_sub_eq, Fq2_mul_eq, Fq2_inverse_eq, Fq2_frobeniusMap_eq])
 
 /-! ## Fq12 (src/bls12_381/fq12.rs) -/
 
-theorem Fq12_conjugate_eq : A.Fq12.conjugate = PP.Fq12.conjugate := rfl
-theorem Fq12_mulBy014_eq : A.Fq12.mulBy014 = PP.Fq12.mulBy014 := rfl
-theorem Fq12_zero_eq : A.Fq12.zero = (0 : Fq12) := rfl
-theorem Fq12_one_eq : A.Fq12.one = (1 : Fq12) := rfl
-theorem Fq12_isZero_eq : A.Fq12.isZero = PP.Fq12.isZero := rfl
-theorem Fq12_double_eq : A.Fq12.double = PP.Fq12.double := rfl
-theorem Fq12_neg_eq : A.Fq12.neg = PP.Fq12.neg := rfl
-theorem Fq12_add_eq : A.Fq12.add = PP.Fq12.add := rfl
-theorem Fq12_sub_eq : A.Fq12.sub = PP.Fq12.sub := rfl
-theorem Fq12_frobeniusMap_eq : A.Fq12.frobeniusMap = PP.Fq12.frobeniusMap := rfl
-theorem Fq12_square_eq : A.Fq12.square = PP.Fq12.square := rfl
-theorem Fq12_mul_eq : A.Fq12.mul = PP.Fq12.mul := rfl
+theorem Fq12_conjugate_eq : A.Fq12.conjugate = PP.Fq12.conjugate := by unfold A.Fq12.conjugate; lower6; all_goals rfl
+theorem Fq12_mulBy014_eq : A.Fq12.mulBy014 = PP.Fq12.mulBy014 := by unfold A.Fq12.mulBy014; lower6; all_goals rfl
+theorem Fq12_zero_eq : A.Fq12.zero = (0 : Fq12) := by unfold A.Fq12.zero; lower6; all_goals rfl
+theorem Fq12_one_eq : A.Fq12.one = (1 : Fq12) := by unfold A.Fq12.one; lower6; all_goals rfl
+theorem Fq12_isZero_eq : A.Fq12.isZero = PP.Fq12.isZero := by unfold A.Fq12.isZero; lower6; all_goals rfl
+theorem Fq12_double_eq : A.Fq12.double = PP.Fq12.double := by unfold A.Fq12.double; lower6; all_goals rfl
+theorem Fq12_neg_eq : A.Fq12.neg = PP.Fq12.neg := by unfold A.Fq12.neg; lower6; all_goals rfl
+theorem Fq12_add_eq : A.Fq12.add = PP.Fq12.add := by unfold A.Fq12.add; lower6; all_goals rfl
+theorem Fq12_sub_eq : A.Fq12.sub = PP.Fq12.sub := by unfold A.Fq12.sub; lower6; all_goals rfl
+theorem Fq12_frobeniusMap_eq : A.Fq12.frobeniusMap = PP.Fq12.frobeniusMap := by unfold A.Fq12.frobeniusMap; lower6; all_goals rfl
+theorem Fq12_square_eq : A.Fq12.square = PP.Fq12.square := by unfold A.Fq12.square; lower6; all_goals rfl
+theorem Fq12_mul_eq : A.Fq12.mul = PP.Fq12.mul := by unfold A.Fq12.mul; lower6; all_goals rfl
 
 theorem Fq12_inverse_eq : A.Fq12.inverse = PP.Fq12.inverse := by
   unfold A.Fq12.inverse PP.Fq12.inverse
-  rw [Fq6_inverse_eq, show @FieldOps.inv Fq6 _ = PP.Fq6.inverse from rfl]
+  lower6
+  rw [show @FieldOps.inv Fq6 _ = PP.Fq6.inverse from rfl]
   generalize PP.Fq6.inverse = inv6
   rfl
 
+/-- rewrite generated `Fq12`, `Fq6` and `Fq2` operations into the model's -/
+local macro "lower12" : tactic => `(tactic| try simp -zeta only [Fq12_conjugate_eq, Fq12_mulBy014_eq, Fq12_zero_eq, Fq12_one_eq, Fq12_isZero_eq, Fq12_double_eq, Fq12_neg_eq, Fq12_add_eq, Fq12_sub_eq, Fq12_frobeniusMap_eq, Fq12_square_eq, Fq12_mul_eq, Fq12_inverse_eq,
+  Fq6_mulByNonresidue_eq, Fq6_mulBy1_eq, Fq6_mulBy01_eq, Fq6_zero_eq, Fq6_one_eq, Fq6_isZero_eq, Fq6_double_eq, Fq6_neg_eq, Fq6_add_eq, Fq6_sub_eq, Fq6_frobeniusMap_eq, Fq6_square_eq, Fq6_mul_eq, Fq6_inverse_eq,
+  Fq2_mulByNonresidue_eq, Fq2_norm_eq, Fq2_zero_eq, Fq2_one_eq, Fq2_isZero_eq, Fq2_square_eq, Fq2_double_eq, Fq2_neg_eq, Fq2_add_eq, Fq2_sub_eq, Fq2_mul_eq, Fq2_inverse_eq, Fq2_frobeniusMap_eq])
+
 /-! the operation bundles handed to the generic `Field::pow` loop are the model's instances -/
 
-theorem Fq2_instMul_eq : A.Fq2.instMul = (inferInstance : Mul Fq2) := rfl
-theorem Fq2_instOne_eq : A.Fq2.instOne = (inferInstance : One Fq2) := rfl
-theorem Fq2_instFieldOps_eq : A.Fq2.instFieldOps = (inferInstance : FieldOps Fq2) := rfl
-theorem Fq6_instMul_eq : A.Fq6.instMul = (inferInstance : Mul Fq6) := rfl
-theorem Fq6_instOne_eq : A.Fq6.instOne = (inferInstance : One Fq6) := rfl
-theorem Fq6_instFieldOps_eq : A.Fq6.instFieldOps = (inferInstance : FieldOps Fq6) := rfl
-theorem Fq12_instMul_eq : A.Fq12.instMul = (inferInstance : Mul Fq12) :=
-  congrArg Mul.mk Fq12_mul_eq
-theorem Fq12_instOne_eq : A.Fq12.instOne = (inferInstance : One Fq12) := rfl
+theorem Fq2_instMul_eq : A.Fq2.instMul = (inferInstance : Mul Fq2) := congrArg Mul.mk Fq2_mul_eq
+theorem Fq2_instOne_eq : A.Fq2.instOne = (inferInstance : One Fq2) := congrArg One.mk Fq2_one_eq
+theorem Fq2_instFieldOps_eq : A.Fq2.instFieldOps = (inferInstance : FieldOps Fq2) := by
+  unfold A.Fq2.instFieldOps; lower2; all_goals rfl
+theorem Fq6_instMul_eq : A.Fq6.instMul = (inferInstance : Mul Fq6) := congrArg Mul.mk Fq6_mul_eq
+theorem Fq6_instOne_eq : A.Fq6.instOne = (inferInstance : One Fq6) := congrArg One.mk Fq6_one_eq
+theorem Fq6_instFieldOps_eq : A.Fq6.instFieldOps = (inferInstance : FieldOps Fq6) := by
+  unfold A.Fq6.instFieldOps; lower6; all_goals rfl
+theorem Fq12_instMul_eq : A.Fq12.instMul = (inferInstance : Mul Fq12) := congrArg Mul.mk Fq12_mul_eq
+theorem Fq12_instOne_eq : A.Fq12.instOne = (inferInstance : One Fq12) := congrArg One.mk Fq12_one_eq
 theorem Fq12_instFieldOps_eq : A.Fq12.instFieldOps = (inferInstance : FieldOps Fq12) := by
-  show FieldOps.mk A.Fq12.square A.Fq12.double A.Fq12.inverse A.Fq12.isZero A.Fq12.frobeniusMap = _
-  rw [Fq12_square_eq, Fq12_double_eq, Fq12_inverse_eq, Fq12_isZero_eq, Fq12_frobeniusMap_eq]
-  rfl
+  unfold A.Fq12.instFieldOps; lower12; all_goals rfl
 
 /-! ## `curve_impl!` (src/bls12_381/ec/mod.rs), generic in the coefficient field -/
 
@@ -98,16 +114,28 @@ variable {F : Type} [Add F] [Sub F] [Mul F] [Neg F] [Zero F] [One F] [FieldOps F
 theorem Aff_zero_eq : (A.Aff.zero : Aff F) = PP.Aff.zero := rfl
 /-- the model inlines `$affine::is_zero` as `.infinity` -/
 theorem Aff_isZero_eq : (A.Aff.isZero : Aff F → Bool) = fun p => p.infinity := rfl
-theorem Aff_isOnCurve_eq : (A.Aff.isOnCurve : F → Aff F → Bool) = PP.Aff.isOnCurve := rfl
 theorem Jac_zero_eq : (A.Jac.zero : Jac F) = PP.Jac.zero := rfl
 theorem Jac_isZero_eq : (A.Jac.isZero : Jac F → Bool) = PP.Jac.isZero := rfl
-theorem Jac_isNormalized_eq : (A.Jac.isNormalized : Jac F → Bool) = PP.Jac.isNormalized := rfl
-theorem Jac_beq_eq : (A.Jac.beq : Jac F → Jac F → Bool) = PP.Jac.beq := rfl
-theorem Jac_double_eq : (A.Jac.double : Jac F → Jac F) = PP.Jac.double := rfl
-theorem Jac_add_eq : (A.Jac.add : Jac F → Jac F → Jac F) = PP.Jac.add := rfl
-theorem Jac_addMixed_eq : (A.Jac.addMixed : Jac F → Aff F → Jac F) = PP.Jac.addMixed := rfl
-theorem Aff_toJac_eq : (A.Aff.toJac : Aff F → Jac F) = PP.Aff.toJac := rfl
-theorem Jac_toAffine_eq : (A.Jac.toAffine : Jac F → Option (Aff F)) = PP.Jac.toAffine := rfl
+
+/-- rewrite the generated `zero` / `is_zero` into the model's -/
+local macro "lowerEC0" : tactic => `(tactic| try simp -zeta only [Aff_zero_eq, Aff_isZero_eq, Jac_zero_eq, Jac_isZero_eq])
+
+theorem Aff_isOnCurve_eq : (A.Aff.isOnCurve : F → Aff F → Bool) = PP.Aff.isOnCurve := by
+  unfold A.Aff.isOnCurve; lowerEC0; all_goals rfl
+theorem Jac_isNormalized_eq : (A.Jac.isNormalized : Jac F → Bool) = PP.Jac.isNormalized := by
+  unfold A.Jac.isNormalized; lowerEC0; all_goals rfl
+theorem Jac_beq_eq : (A.Jac.beq : Jac F → Jac F → Bool) = PP.Jac.beq := by
+  unfold A.Jac.beq; lowerEC0; all_goals rfl
+theorem Jac_double_eq : (A.Jac.double : Jac F → Jac F) = PP.Jac.double := by
+  unfold A.Jac.double; lowerEC0; all_goals rfl
+theorem Jac_add_eq : (A.Jac.add : Jac F → Jac F → Jac F) = PP.Jac.add := by
+  unfold A.Jac.add; lowerEC0; simp -zeta only [Jac_double_eq]; all_goals rfl
+theorem Jac_addMixed_eq : (A.Jac.addMixed : Jac F → Aff F → Jac F) = PP.Jac.addMixed := by
+  unfold A.Jac.addMixed; lowerEC0; simp -zeta only [Jac_double_eq]; all_goals rfl
+theorem Aff_toJac_eq : (A.Aff.toJac : Aff F → Jac F) = PP.Aff.toJac := by
+  unfold A.Aff.toJac; lowerEC0; all_goals rfl
+theorem Jac_toAffine_eq : (A.Jac.toAffine : Jac F → Option (Aff F)) = PP.Jac.toAffine := by
+  unfold A.Jac.toAffine; lowerEC0; all_goals rfl
 
 /-- Rust: `if !self.is_zero() { self.y.negate(); }`; model: `if p.infinity then p else ⟨x, -y, false⟩` -/
 theorem Aff_neg_eq : (A.Aff.neg : Aff F → Aff F) = PP.Aff.neg := by
@@ -130,12 +158,9 @@ end
 
 /-! ## pairing (src/bls12_381/mod.rs) -/
 
-theorem doublingStep_eq : A.doublingStep = PP.doublingStep := rfl
-theorem additionStep_eq : A.additionStep = PP.additionStep := rfl
-
-theorem ell_eq : A.ell = PP.ell := by
-  unfold A.ell PP.ell
-  rw [Fq12_mulBy014_eq]
+theorem doublingStep_eq : A.doublingStep = PP.doublingStep := by unfold A.doublingStep; lower2; all_goals rfl
+theorem additionStep_eq : A.additionStep = PP.additionStep := by unfold A.additionStep; lower2; all_goals rfl
+theorem ell_eq : A.ell = PP.ell := by unfold A.ell; lower12; all_goals rfl
 
 /-- the Rust parameter `x : u64` is a `UInt64` in the generated code and a `Nat` reduced mod `2^64`
     in the model -/
